@@ -20,7 +20,8 @@ func decodeEnvAttrs(s string) (*resource.Resource, error) {
 // FuzzEnvAttrs: for every OTEL_RESOURCE_ATTRIBUTES string the detector never
 // panics, returns only non-empty keys with string values, reports nothing but
 // partial-resource errors, and what it decoded survives a round trip through
-// the reference percent-encoder.
+// the reference percent-encoder; the input taken as a VALUE and rendered by
+// the reference encoder decodes to itself byte for byte.
 func FuzzEnvAttrs(f *testing.F) {
 	for _, s := range []string{
 		"", " ", "a=b", "a=b,c=d", " a = b , c = d ", "k=%zz", "k=%", "a=%E4%B8%96%e7%95%8c", "=x", ",", "a", "a,b=c",
@@ -60,6 +61,20 @@ func FuzzEnvAttrs(f *testing.F) {
 		}
 		if !r.Equal(r2) {
 			t.Fatalf("round trip result is not Equal")
+		}
+		// forward direction: s itself as a value (minimal and full encoding,
+		// with OWS padding) must come back byte for byte, next to a pair
+		// without '=' that must be reported and must not cost the good pairs.
+		min, _ := refEncode(s, nil, false)
+		full, _ := refEncode(s, func(int) bool { return true }, true)
+		env := " fz.min = " + min + " ,novalue,fz.full=\t" + full
+		r3, err3 := decodeEnvAttrs(env)
+		if err3 == nil || !errors.Is(err3, resource.ErrPartialResource) {
+			t.Fatalf("%q: element without '=' not reported as a partial resource: %v", env, err3)
+		}
+		want := []string{renderKV("fz.full", attribute.StringValue(s)), renderKV("fz.min", attribute.StringValue(s))}
+		if have := renderSlice(r3.Attributes()); !sameStrings(have, want) {
+			t.Fatalf("%q decodes to %v, want %v", env, have, want)
 		}
 	})
 }
